@@ -499,10 +499,45 @@ func (w *clockWorld) opCancelled(s *Stream) {
 func (w *clockWorld) opFormat(s *Stream) {
 	t := w.pick(s)
 	layout := numericLayouts[s.Intn(len(numericLayouts))]
+	if !w.formatOne(s, t, layout) {
+		return
+	}
+	if s.Intn(3) == 0 {
+		// a neighbour of the time just rendered, same layout: every call alone is right, a
+		// result remembered under too coarse a key (the second, the day, the zone) is not
+		t2 := t
+		switch s.Intn(8) {
+		case 0:
+			t2 = t.Add(time.Nanosecond)
+		case 1:
+			t2 = t.Add(time.Duration(1+s.Intn(999)) * time.Millisecond)
+		case 2: // another fraction of the same second
+			t2 = t.Add(time.Duration(s.Intn(1000000000)-t.Nanosecond()) * time.Nanosecond)
+		case 3:
+			t2 = t.Add(time.Second)
+		case 4:
+			t2 = t.Add(time.Duration(1+s.Intn(59)) * time.Minute)
+		case 5:
+			t2 = t.Add(24 * time.Hour)
+		case 6: // the same instant in another zone
+			if loc, err := time.LoadLocation(simZonesGood[s.Intn(len(simZonesGood))]); err == nil {
+				t2 = t.In(loc)
+			}
+		default: // the same wall-clock reading a whole number of years away
+			t2 = t.Add(time.Duration(1+s.Intn(200)) * 365 * 24 * time.Hour)
+		}
+		if y := t2.Year(); y >= 1 && y <= 9999 {
+			w.rc.probe("format_of_a_neighbouring_time")
+			w.formatOne(s, t2, layout)
+		}
+	}
+}
+
+func (w *clockWorld) formatOne(s *Stream, t time.Time, layout string) bool {
 	want, ok := renderLayout(layout, t)
 	if !ok {
 		w.rc.probe("format_not_rendered_by_oracle")
-		return
+		return false
 	}
 	w.r.SetThisValue("t0", t)
 	text := "timeFormat(t0, '" + layout + "')"
@@ -519,11 +554,12 @@ func (w *clockWorld) opFormat(s *Stream) {
 	got, isStr := v.(string)
 	if err != nil || pan != nil || !isStr {
 		w.violation("timeFormat returns a string", "format-failed", text+": "+render(v)+" err="+errText(err)+" panic="+panicStr(pan))
-		return
+		return false
 	}
 	if got != want {
 		w.violation("timeFormat renders a time in the given layout", "format-differs", text+" on "+t.Format(time.RFC3339Nano)+" ["+t.Location().String()+"] = "+strconv.Quote(got)+", oracle "+strconv.Quote(want))
 	}
+	return true
 }
 
 // opChain: date -> extractors through a local, in one evaluation and across evaluations.
